@@ -102,11 +102,11 @@ impl Shell {
         ensures smap(final(self).aliases) == smap(old(self).aliases).remove(name@) && r == smap(old(self).aliases).contains_key(name@),
             smap(final(self).envs) == smap(old(self).envs) && smap(final(self).funcs) == smap(old(self).funcs)
     { unimplemented!() }
-    // contract proved in U-EXP2 (C17.table.content): None for an unknown name AND for an alias whose value is empty
+    // contract proved in U-EXP2 (C17.table.content): Some exactly for a defined name, whatever its value (also the empty one)
     #[verifier::external_body]
     pub fn get_alias_content(&self, name: &str) -> (r: Option<String>)
-        ensures match r { Some(v) => smap(self.aliases).contains_key(name@) && v@ == smap(self.aliases)[name@] && v@.len() > 0,
-                          None => !smap(self.aliases).contains_key(name@) || smap(self.aliases)[name@].len() == 0 }
+        ensures match r { Some(v) => smap(self.aliases).contains_key(name@) && v@ == smap(self.aliases)[name@],
+                          None => !smap(self.aliases).contains_key(name@) }
     { unimplemented!() }
     #[verifier::external_body]
     pub fn is_alias(&self, name: &str) -> (r: bool) ensures r == smap(self.aliases).contains_key(name@) { unimplemented!() }
